@@ -230,4 +230,16 @@ theorem C17_skeleton_fill :
     Sso.Generated.skel_google_PopulateMembers = ["call:ListMemberships", "if{", "return", "}", "range{", "store:memberSet[]", "}", "return"] ∧
     Sso.Generated.skel_cognito_PopulateMembers = ["call:ListMemberships", "if{", "return", "}", "range{", "store:memberSet[]", "}", "return"] := by decide
 
+/-- Tie (T1), second wave: helpers, stores and second callers on this property's path (localcache_Get, localcache_Set, localcache_Purge, okta_ValidateGroupMembership) — call/branch/store skeletons
+regenerated from the source on every run against the expectations frozen here. -/
+theorem C17_wiring2 :
+    Sso.Generated.skel_localcache_Get =
+      ["call:get", "if{", "return", "}", "return"] ∧
+    Sso.Generated.skel_localcache_Set =
+      ["call:set"] ∧
+    Sso.Generated.skel_localcache_Purge =
+      ["call:Delete"] ∧
+    Sso.Generated.skel_okta_ValidateGroupMembership =
+      ["if{", "return", "}", "call:len", "if{", "return", "}", "call:GetUserProfile", "if{", "return", "}", "call:len", "if{", "call:New", "return", "}", "range{", "range{", "if{", "call:append", "break", "}", "}", "}", "return"] := by decide
+
 end Sso.Caches
